@@ -215,3 +215,21 @@ Example T09ghi_example :
   st_draws (prepare_eval s) = 3%nat /\
   panel_accepts (fresh [([1; 1], 0%nat); ([2; 2], 0%nat); ([1; 1], 0%nat)]) 0%nat = false.
 Proof. vm_compute. repeat split; reflexivity. Qed.
+
+(* T09j. One BIOGEME object whose database table changes after the construction (Database.remove, direct
+   edits), likelihoods and simulations asked in any order: the engine always evaluates ONE consistent
+   table -- sorted, with the map of exactly that table; that table is a reordering of the table of the
+   construction or of a later table of the database.  (Never old rows with new ranges.) *)
+Theorem T09j_object_engine_consistent : forall (A : Type) c (db : list (@hrow A)) ops,
+  engine_ok c (snd (run_object c db ops)) /\
+  exists t, (t = db \/ In (BChange t) ops) /\ Permutation t (e_table (snd (run_object c db ops))).
+Proof. exact (@object_engine_consistent). Qed.
+Print Assumptions T09j_object_engine_consistent.
+
+Example T09j_example :
+  let db := [([5], 1%nat); ([5], 2%nat); ([7], 3%nat); ([9], 4%nat)] in
+  let db' := [([5], 1%nat); ([7], 3%nat); ([9], 4%nat)] in
+  e_map (snd (run_object 0%nat db [BChange db'; BLikelihood])) = [(5, 0%nat, 1%nat); (7, 2%nat, 2%nat); (9, 3%nat, 3%nat)] /\
+  e_map (snd (run_object 0%nat db [BChange db'; BLikelihood; BSimulate])) = [(5, 0%nat, 0%nat); (7, 1%nat, 1%nat); (9, 2%nat, 2%nat)] /\
+  e_table (snd (run_object 0%nat db [BChange db'; BSimulate])) = db'.
+Proof. vm_compute. repeat split; reflexivity. Qed.
